@@ -951,17 +951,17 @@ theorem removeChild_maps (w : W) (l : String) :
     (removeChild w l).1.imap = w.imap ∧ (removeChild w l).1.omap = w.omap := by
   unfold removeChild; split <;> simp
 
-theorem replaceChild_maps (w : W) (l : String) (c : Child) :
-    (replaceChild w l c).1.imap = w.imap ∧ (replaceChild w l c).1.omap = w.omap := by
+theorem replaceSwap_maps (w : W) (old : Child) (l lab : String) (c : Child) :
+    (replaceSwap w old l lab c).imap = w.imap ∧ (replaceSwap w old l lab c).omap = w.omap := by
+  simp [replaceSwap]
+
+theorem replaceChild_maps (b : Bool) (w : W) (l : String) (c : Child) :
+    (replaceChild b w l c).1.imap = w.imap ∧ (replaceChild b w l c).1.omap = w.omap := by
   unfold replaceChild
-  split
-  · simp
-  · simp only
-    split
-    · simp
-    · split
-      · simp
-      · split <;> simp
+  repeat' split
+  all_goals first
+    | exact ⟨rfl, rfl⟩
+    | exact replaceSwap_maps _ _ _ _ _
 
 theorem relabelChild_maps (b : Bool) (w : W) (o : String) (n : LabelArg) :
     (relabelChild b w o n).1.imap = w.imap ∧ (relabelChild b w o n).1.omap = w.omap := by
@@ -1036,7 +1036,7 @@ theorem step_inv (w : W) (op : Op) (h : WInv w) (hwf : op.WF) : WInv (step w op)
     cases s
     · exact ⟨editStored_ok _ e hi, ho⟩
     · exact ⟨hi, editStored_ok _ e ho⟩
-  | replace l c => have := replaceChild_maps w l c; simp only [step, WInv, this.1, this.2]; exact ⟨hi, ho⟩
+  | replace l c => have := replaceChild_maps false w l c; simp only [step, WInv, this.1, this.2]; exact ⟨hi, ho⟩
   | relabel o n => have := relabelChild_maps false w o n; simp only [step, WInv, this.1, this.2]; exact ⟨hi, ho⟩
   | pull l f => have := pullChild_maps true w l f; simp only [step, WInv, this.1, this.2]; exact ⟨hi, ho⟩
   | load l c => have := loadChild_maps false w l c; simp only [step, WInv, this.1, this.2]; exact ⟨hi, ho⟩
